@@ -78,7 +78,20 @@ def case(ad, f):
     inv = irlib.check_inv([n])
     for clause in sorted(set(e[0] for e in inv)):
         f.fail('C09.inv', clause, [e[1] for e in inv if e[0] == clause][0])
-    f.ok(4)
+    # "no hierarchical instance remains": the top definition's nets touch only its own port pins and pins of its current children
+    kids = set(id(ch) for ch in top.children)
+    stray = []
+    for cab in top.cables:
+        for w in cab.wires:
+            for p in w.pins:
+                if hasattr(p, 'instance'):
+                    if id(p.instance) not in kids:
+                        stray.append('%s -> pin of %s' % (cab.name, getattr(p.instance, 'name', None)))
+                elif p.port is None or p.port.definition is not top:
+                    stray.append('%s -> foreign inner pin' % cab.name)
+    f.check(not stray, 'C09.only-leaves', 'stray-pin', 'after flatten a net of the top definition is still tied to a pin of an instance that is not '
+            'a child of the top definition: %r' % stray[:3])
+    f.ok(5)
 
 
 def profile_for(seed):
